@@ -329,6 +329,13 @@ func (r *spaceRunner) exponentGrid() {
 		r.bytesCase("number", []byte("1e"+k))
 		r.w.S.Nontrivial++
 	}
+	// exponents next to the limits of the machine integers
+	for _, m := range []string{"1", "1.5", "12", "-0.25"} {
+		for _, k := range []string{"9223372036854775807", "-9223372036854775807", "9223372036854775806", "9223372036854775808", "-9223372036854775808", "18446744073709551615"} {
+			r.bytesCase("number", []byte(m+"e"+k))
+			r.w.S.Nontrivial++
+		}
+	}
 }
 
 // graphFamily: <=3 mutually/self-referencing types, every subset registered.
